@@ -150,6 +150,11 @@ sb_error_t sb_yaw_control_init_from_binary_file_in_memory(
 
 sb_error_t sb_i_yaw_control_init_from_bytes(sb_yaw_control_t* ctrl, uint8_t* buf, size_t nbytes, sb_bool_t owned)
 {
+    /* the header consists of a flag byte and the 16-bit yaw offset */
+    if (nbytes < 1 + sizeof(int16_t)) {
+        return SB_EPARSE;
+    }
+
     if (owned) {
         SB_CHECK(sb_buffer_init_from_bytes(&ctrl->buffer, buf, nbytes));
     } else {
@@ -475,8 +480,9 @@ static sb_error_t sb_i_yaw_player_build_current_setpoint(
     data->start_yaw_ddeg = start_yaw_ddeg;
     data->start_yaw_deg = data->start_yaw_ddeg / 10.0f;
 
-    if (offset >= buffer_length) {
-        /* We are beyond the end of the buffer, indicating that there are
+    if (offset + SIZE_OF_DELTA > buffer_length) {
+        /* We are beyond the end of the buffer (or there is no room for a
+         * complete setpoint any more), indicating that there are
          * no more setpoints in the buffer; we keep last yaw forever */
         data->duration_msec = UINT32_MAX - data->start_time_msec;
         data->duration_sec = INFINITY;
